@@ -1,7 +1,7 @@
 """C04 — floating-point error bounds. Spec: BigNat.tla (exact naturals / scaled numbers, self-checked by BigNat_MC),
 MBFBig.tla (MBF decode), trace spec C04_Trace (the stated bounds, evaluated with exact arithmetic)."""
-import os, time
-from ..session import Sess
+import os, json, time
+from ..session import Sess, find_errors
 from .. import core
 from ..bigval import validate_parallel, mbf_bytes
 from fractions import Fraction
@@ -137,41 +137,30 @@ def gen_pair(rng, op):
     return 'simple', small(na), small(nb)
 
 
-def run(ctx):
-    ctx.cov['rule'] = ('one event per call r = a op b of the real interpreter, judged by TLC with exact arithmetic (C04_Trace); '
-                       'distinct = distinct (op, a bytes, b bytes, handler mode); non-trivial = events whose operands are both '
-                       'non-zero (a zero operand makes the exact result trivial)')
-    # oracle self-check: BigNat against native arithmetic, exhaustive below the bound, limb base 8
-    if os.environ.get('VF_SKIP_ORACLE_SELFCHECK') == '1':
-        # only for mutant testing of the implementation (the oracle itself is unchanged there)
-        print('note: BigNat self-check skipped (VF_SKIP_ORACLE_SELFCHECK=1)')
-        ctx.cov['bignat_selfcheck_states'] = 'skipped'
-    else:
-        r = ctx.model_check('BigNat_MC', ctx.pick('BigNat_MC.cfg', 'BigNat_MC_big.cfg'), workers=ctx.pick(4, 8),
-                            require_actions=False)
-        ctx.cov['bignat_selfcheck_states'] = r['distinct']
-        if r['distinct'] < 1000:
-            raise core.MachineryError('BigNat self-check explored only %d states' % r['distinct'])
-    t0 = time.time()
-    s = Sess()
-    from pcbasic.basic.values import values as V, numbers as N
-    vals = s.impl.values
-    handler = vals.error_handler
-    rng = ctx.rng
-    fn = {'add': V.add, 'sub': V.sub, 'mul': V.mul, 'div': V.div}
-    events = []
-    classes = {}
+class Driver(object):
+    """Performs r = a op b on the real interpreter and records one event per call."""
 
-    def mk(b):
-        return (N.Single if len(b) == 4 else N.Double)(None, vals).from_bytes(bytearray(b))
+    def __init__(self):
+        self.s = Sess()
+        from pcbasic.basic.values import values as V, numbers as N
+        self.N = N
+        self.vals = self.s.impl.values
+        self.handler = self.vals.error_handler
+        self.fn = {'add': V.add, 'sub': V.sub, 'mul': V.mul, 'div': V.div}
+        self.events = []
 
-    def direct(op, a, b, soft, cls):
-        e = {'op': op, 'a': a, 'b': b, 'via': 'soft' if soft else 'raise', 'cls': cls}
-        x, y = mk(a), mk(b)
+    def mk(self, b):
+        return (self.N.Single if len(b) == 4 else self.N.Double)(None, self.vals).from_bytes(bytearray(b))
+
+    def direct(self, op, a, b, soft, cls):
+        """pcbasic.basic.values.<op> on Single/Double objects; float error handler raising or soft (message + maximum)."""
+        s, N = self.s, self.N
+        e = {'op': op, 'a': list(a), 'b': list(b), 'via': 'soft' if soft else 'raise', 'cls': cls}
+        x, y = self.mk(a), self.mk(b)
         s.take()
-        handler.suspend(not soft)
+        self.handler.suspend(not soft)
         try:
-            r = fn[op](x, y)
+            r = self.fn[op](x, y)
         except BaseException as ex:  # noqa
             code = getattr(ex, 'err', None)
             if type(ex).__name__ == 'BASICError' and code is not None:
@@ -179,12 +168,11 @@ def run(ctx):
             else:
                 e['k'], e['code'], e['r'] = 'internal', 0, []
                 e['detail'] = '%s: %s' % (type(ex).__name__, ex)
-            handler.suspend(False)
-            events.append(e)
+            self.handler.suspend(False)
+            self.events.append(e)
             return
-        handler.suspend(False)
+        self.handler.suspend(False)
         out = s.take() if soft else b''
-        from ..session import find_errors
         errs = find_errors(out) if out else []
         if not isinstance(r, N.Float):
             e['k'], e['code'], e['r'] = 'internal', 0, []
@@ -194,20 +182,21 @@ def run(ctx):
         else:
             e['k'], e['code'], e['r'] = 'val', 0, list(r.to_bytes())
         # operands must not be modified by the operator
-        if list(x.to_bytes()) != a or list(y.to_bytes()) != b:
+        if list(x.to_bytes()) != list(a) or list(y.to_bytes()) != list(b):
             e['k'] = 'internal'
             e['detail'] = 'operand modified in place'
-        events.append(e)
+        self.events.append(e)
 
-    def basic(op, a, b, cls):
+    def basic(self, op, a, b, cls):
         """Same call through the BASIC expression evaluator."""
+        s = self.s
         s.s.set_variable('A$', bytes(bytearray(a)))
         s.s.set_variable('B$', bytes(bytearray(b)))
         wide = max(len(a), len(b))
         expr = '%s(%s(A$)%s%s(B$))' % ('MKS$' if wide == 4 else 'MKD$', 'CVS' if len(a) == 4 else 'CVD', SYM[op],
                                        'CVS' if len(b) == 4 else 'CVD')
         r = s.ev(expr)
-        e = {'op': op, 'a': a, 'b': b, 'via': 'basic', 'cls': cls, 'expr': expr}
+        e = {'op': op, 'a': list(a), 'b': list(b), 'via': 'basic', 'cls': cls, 'expr': expr}
         if r[0] == 'ok' and isinstance(r[1], bytes):
             e['k'], e['code'], e['r'] = 'val', 0, list(bytearray(r[1]))
         elif r[0] == 'soft' and isinstance(r[3], bytes):
@@ -217,41 +206,27 @@ def run(ctx):
         else:
             e['k'], e['code'], e['r'] = 'internal', 0, []
             e['detail'] = repr(r[:2])[:200]
-        events.append(e)
+        self.events.append(e)
 
-    n_direct = ctx.pick(14000, 300000)
-    n_basic = ctx.pick(800, 12000)
-    for i in range(n_direct):
-        op = OPS[i % 4]
-        cls, a, b = gen_pair(rng, op)
-        classes[cls] = classes.get(cls, 0) + 1
-        direct(op, a, b, soft=(i % 8) >= 6, cls=cls)
-    for i in range(n_basic):
-        op = OPS[i % 4]
-        cls, a, b = gen_pair(rng, op)
-        basic(op, a, b, cls)
-    # the reproduced finding of the design phase and its neighbourhood, always included
-    one_d = [0, 0, 0, 0, 0, 0, 0, 0x81]
-    for ex in range(1, 140):
-        tiny = [0x35, 0x4a, 0x0f, 0x99, 0x26, 0xc9, 0x22, ex]
-        direct('mul', tiny, one_d, False, 'tiny_times_one')
-        direct('mul', one_d, tiny, False, 'tiny_times_one')
-    basic('mul', list(bytearray(mk_bytes(s, '1D-31'))), one_d, 'tiny_times_one')
-    s.close()
-    ctx.cov['impl_wall_s'] = round(time.time() - t0, 1)
-    ctx.cov['operand_classes'] = classes
+    def close(self):
+        self.s.close()
+
+
+def judge(ctx, events):
+    """TLC (C04_Trace) judges every event; rejected events are reported."""
     for e in events:
         ctx.count([e['op'], e['a'], e['b'], e['via']], nontrivial=(e['a'][-1] != 0 and e['b'][-1] != 0))
     outcome = {}
     for e in events:
         outcome[e['k']] = outcome.get(e['k'], 0) + 1
     ctx.cov['outcomes'] = outcome
-    for i in (0, 1, 2, 3, len(events) // 2, len(events) - 1):
-        ctx.sample({k: v for k, v in events[i].items()})
+    for i in sorted(set((0, 1, 2, 3, len(events) // 2, len(events) - 1))):
+        if 0 <= i < len(events):
+            ctx.sample({k: v for k, v in events[i].items()})
     # internal outcomes are rejections by themselves (no spec action explains an escaping exception)
     clean = [{'op': e['op'], 'a': e['a'], 'b': e['b'], 'k': e['k'] if e['k'] != 'internal' else 'err',
               'code': e['code'] if e['k'] != 'internal' else -1, 'r': e['r']} for e in events]
-    verdicts = validate_parallel(ctx, 'C04_Trace', clean, jobs=ctx.pick(2, 8))
+    verdicts = validate_parallel(ctx, 'C04_Trace', clean, jobs=ctx.pick(2, 8) if len(clean) > 2000 else 1)
     clauses = {}
     for (i, clause) in verdicts:
         e = events[i - 1]
@@ -268,10 +243,71 @@ def run(ctx):
                         'error kind of soft-handled errors read from the console message']
 
 
+RULE = ('one event per call r = a op b of the real interpreter, judged by TLC with exact arithmetic (C04_Trace); '
+        'distinct = distinct (op, a bytes, b bytes, handler mode); non-trivial = events whose operands are both '
+        'non-zero (a zero operand makes the exact result trivial)')
+
+
+def run(ctx):
+    ctx.cov['rule'] = RULE
+    # oracle self-check: BigNat against native arithmetic, exhaustive below the bound, limb base 8
+    if os.environ.get('VF_SKIP_ORACLE_SELFCHECK') == '1':
+        # only for mutant testing of the implementation (the oracle itself is unchanged there)
+        print('note: BigNat self-check skipped (VF_SKIP_ORACLE_SELFCHECK=1)')
+        ctx.cov['bignat_selfcheck_states'] = 'skipped'
+    else:
+        r = ctx.model_check('BigNat_MC', ctx.pick('BigNat_MC.cfg', 'BigNat_MC_big.cfg'), workers=ctx.pick(4, 8),
+                            require_actions=False)
+        ctx.cov['bignat_selfcheck_states'] = r['distinct']
+        if r['distinct'] < 1000:
+            raise core.MachineryError('BigNat self-check explored only %d states' % r['distinct'])
+    t0 = time.time()
+    d = Driver()
+    rng = ctx.rng
+    classes = {}
+    n_direct = ctx.pick(14000, 300000)
+    n_basic = ctx.pick(800, 12000)
+    for i in range(n_direct):
+        op = OPS[i % 4]
+        cls, a, b = gen_pair(rng, op)
+        classes[cls] = classes.get(cls, 0) + 1
+        d.direct(op, a, b, soft=(i % 8) >= 6, cls=cls)
+    for i in range(n_basic):
+        op = OPS[i % 4]
+        cls, a, b = gen_pair(rng, op)
+        d.basic(op, a, b, cls)
+    # the reproduced finding of the design phase and its neighbourhood, always included
+    one_d = [0, 0, 0, 0, 0, 0, 0, 0x81]
+    for ex in range(1, 140):
+        tiny = [0x35, 0x4a, 0x0f, 0x99, 0x26, 0xc9, 0x22, ex]
+        d.direct('mul', tiny, one_d, False, 'tiny_times_one')
+        d.direct('mul', one_d, tiny, False, 'tiny_times_one')
+    d.basic('mul', list(bytearray(d.s.ev('MKD$(1D-31)')[1])), one_d, 'tiny_times_one')
+    d.close()
+    ctx.cov['impl_wall_s'] = round(time.time() - t0, 1)
+    ctx.cov['operand_classes'] = classes
+    judge(ctx, d.events)
+
+
+def replay(ctx, path):
+    """Re-execute the rejected calls recorded in a replay file on the current tree and judge them again."""
+    ctx.cov['rule'] = RULE
+    with open(path) as f:
+        doc = json.load(f)
+    d = Driver()
+    for v in doc.get('violations', []):
+        e = v.get('data') or {}
+        if not isinstance(e, dict) or e.get('op') not in OPS:
+            continue
+        if e.get('via') == 'basic':
+            d.basic(e['op'], e['a'], e['b'], e.get('cls', 'replay'))
+        else:
+            d.direct(e['op'], e['a'], e['b'], e.get('via') == 'soft', e.get('cls', 'replay'))
+    d.close()
+    if not d.events:
+        raise core.MachineryError('nothing to replay in %s' % path)
+    judge(ctx, d.events)
+
+
 def hexs(b):
     return ''.join('%02x' % x for x in b)
-
-
-def mk_bytes(s, lit):
-    r = s.ev('MKD$(%s)' % lit)
-    return r[1]
